@@ -139,7 +139,7 @@ Scalar MASA::cp_normal<Scalar>::eval_prior(Scalar x)
   using std::pow;
 
   Scalar prior;
-  prior = sqrt(2*pi*pow(sigma,2)) * exp(-(1/(2*pow(sigma,2)))*pow((x-m),2));
+  prior = exp(-(1/(2*pow(sigma,2)))*pow((x-m),2)) / sqrt(2*pi*pow(sigma,2));
   return prior;
 }
 
@@ -165,7 +165,7 @@ Scalar MASA::cp_normal<Scalar>::eval_posterior(Scalar x)
   
   sigmap = sqrt(1/((1/pow(sigma,2)) + (Scalar(vec_data.size())/pow(sigma_d,2))));
   mp     = pow(sigmap,2) * (m/pow(sigma,2) + (Scalar(vec_data.size())*av/pow(sigma_d,2)));
-  post   = sqrt(2*pi*pow(sigmap,2)) * exp(-(1/(2*pow(sigmap,2)))*pow((x-mp),2));
+  post   = exp(-(1/(2*pow(sigmap,2)))*pow((x-mp),2)) / sqrt(2*pi*pow(sigmap,2));
 
   return post;
 }
